@@ -1,4 +1,5 @@
 import EaselModel.WorkQueue.Lemmas
+import EaselModel.WorkQueue.FullApi
 import EaselModel.Dsqdata.CodecLemmas
 import EaselModel.Dsqdata.LoaderLemmas
 import EaselModel.Dsqdata.InPlace
@@ -90,6 +91,54 @@ theorem wq_no_overflow {size : Nat} (hs : 0 < size) {s : Sys} (h : Reachable siz
 theorem wq_run_reachable {size : Nat} (ls : List Label) (s' : Sys)
     (ha : AdmissibleRun (Sys.create size) ls) (hr : run (Sys.create size) ls = some s') : Reachable size s' :=
   run_reachable _ ls s' Reachable.create ha hr
+
+/-! ### the FULL API: `esl_workqueue_Reset` at any moment (no contract on `Reset`)
+
+`ReachableFull size s`: `s` is reached from `esl_workqueue_Create(size)` by any history of `Init` (each block once, at most `size`
+blocks - the only contract left), `Remove`, `Reset`, `Complete`, `ReaderUpdate` / `WorkerUpdate` with every NULL / non-NULL
+combination of `in` and `out`, and wake-ups, in any interleaving - `Reset` also while workers sleep and blocks are queued. -/
+
+/-- **State conservation for every history of the full API.** Blocks are conserved and each is in exactly one place, both queues are
+    FIFO (history variables), counters and heads stay in range, no NULL is queued, and the counters add up:
+    `readerQueueCnt + workerQueueCnt + blocks in threads' hands = blocks handed in`. (What a `Reset` with sleeping workers does
+    break is `pendingWorkers` = number of sleepers: `wq_reset_while_pending_loses_wakeup`.) -/
+theorem wq_full_api_conservation {size : Nat} (hs : 0 < size) {s : Sys} (h : ReachableFull size s) :
+    s.allBlocks.Perm s.inited ∧ s.allBlocks.Nodup ∧
+    s.wEnq = s.wDeq ++ s.wBlocks ∧ s.rEnq = s.rDeq ++ s.rBlocks ∧
+    s.rq.cnt ≤ s.size ∧ s.wq.cnt ≤ s.size ∧ s.rq.head < s.size ∧ s.wq.head < s.size ∧
+    s.rq.contents s.size = s.rBlocks.map some ∧ s.wq.contents s.size = s.wBlocks.map some ∧
+    s.rq.cnt + s.wq.cnt + s.held.length = s.inited.length :=
+  let i : Inv s.awake := reachableFull_coreInv hs h
+  ⟨i.cons, (i.cons.nodup_iff).mpr i.nodup, i.fifoW, i.fifoR, i.rwf.cnt, i.wwf.cnt, i.rwf.head, i.wwf.head, i.rsome, i.wsome, i.count⟩
+
+/-- the "queue overflow" exception is unreachable under the full API as well -/
+theorem wq_full_api_no_overflow {size : Nat} (hs : 0 < size) {s : Sys} (h : ReachableFull size s) (l : Label)
+    (ha : AdmissibleCore s l) : step s l ≠ .overflow :=
+  step_no_overflow_full s l (reachableFull_coreInv hs h) ha
+
+/-- **`Reset` in every state** (blocks still queued on either side, the reader ring wrapped, workers asleep): the worker queue is
+    empty afterwards, the reader queue is its old contents followed by the old worker-queue contents in order, nobody's holdings
+    change; `pendingWorkers` is zeroed while the sleepers stay asleep. -/
+theorem wq_reset_every_state {size : Nat} (hs : 0 < size) {s s' : Sys} (h : ReachableFull size s) (hst : step s .reset = .ok s') :
+    s'.wBlocks = [] ∧ s'.rBlocks = s.rBlocks ++ s.wBlocks ∧ s'.pending = 0 ∧ s'.wWait = s.wWait ∧ s'.held = s.held := by
+  obtain ⟨a, b, c, d, e, _⟩ := reset_any s s' (reachableFull_coreInv hs h) hst
+  exact ⟨a, b, c, d, e⟩
+
+/-- the contract-abiding histories are histories of the full API -/
+theorem wq_reachable_full {size : Nat} {s : Sys} (h : Reachable size s) : ReachableFull size s := by
+  induction h with
+  | create => exact .create
+  | @step s1 s2 l _ ha hst ih =>
+    refine .step ih ?_ hst
+    cases l with
+    | init b => exact ha
+    | _ => trivial
+
+/-- non-vacuity: size 2, worker 7 asleep, block 1 with the workers, block 2 with the reader: `Reset` while 7 sleeps (not admissible
+    under the contract) - the state is reachable under the full API, the blocks are back in the reader's queue -/
+example : ∃ s, run (Sys.create 2) [.init 1, .init 2, .readerUpdate none true, .workerUpdate 7 none true, .readerUpdate (some 1) true,
+      .reset] = some s ∧ s.rBlocks = [1] ∧ s.wBlocks = [] ∧ s.wWait ≠ [] ∧ s.pending = 0 := by
+  refine ⟨_, rfl, ?_, ?_, ?_, ?_⟩ <;> decide
 
 /-! ## non-vacuity and the two hypotheses forced by the proofs -/
 
